@@ -672,6 +672,7 @@ class ExecMixin:
 
     # ------------------------------------------------------------------ raise / try
     def x_Raise(self, s, st):
+        # `raise X from e`: the cause only sets __cause__, which is not modelled
         if s.exc is None:
             if not getattr(self, "current_exc", None):
                 raise Unsupported("bare raise outside handler")
